@@ -51,7 +51,7 @@ class _Continue(Exception):
 
 
 class Frame:
-    __slots__ = ("fi", "locals", "parent", "events", "self_av", "mod", "is_gen", "cur_exc")
+    __slots__ = ("fi", "locals", "parent", "events", "self_av", "mod", "is_gen", "cur_exc", "cls_scope")
 
     def __init__(self, fi: Optional[FuncInfo], mod: ModuleInfo, parent: Optional["Frame"] = None) -> None:
         self.fi = fi
@@ -62,6 +62,7 @@ class Frame:
         self.self_av: Optional[AV] = None
         self.is_gen = False
         self.cur_exc: Optional[AbsRaise] = None
+        self.cls_scope: Any = None
 
 
 NONE = Const(None)
@@ -199,6 +200,10 @@ class Interp:
         while f is not None:
             if name in f.locals:
                 return f.locals[name]
+            if f.cls_scope is not None:
+                r = self.host.class_attr(f.cls_scope, name, None, node)
+                if r is not None:
+                    return r
             f = f.parent
         return self.module_global(fr.mod, name, node)
 
@@ -365,7 +370,20 @@ class Interp:
         return self.comprehension(node, node.elt, node.generators, fr, "iter")
 
     def e_SetComp(self, node: ast.SetComp, fr: Frame) -> AV:
-        raise self.unsupported(node, "set comprehension")
+        v = self.comprehension(node, node.elt, node.generators, fr, "list")
+        if isinstance(v, PyList):
+            s = PySet(depth=self.loop_depth, oid=self.ctx.new_id())
+            for e in v.items:
+                try:
+                    k = hkey(e)
+                except Unsupported:
+                    k = ("obj", getattr(e, "id", id(e)))
+                s.items.add(k)
+                s.keys_av[k] = e
+            return s
+        assert isinstance(v, Stream)
+        src = Source("opaque", v, ["set"], fresh=True, id=self.ctx.new_id(), depth=self.loop_depth)
+        return src
 
     def e_Yield(self, node: ast.Yield, fr: Frame) -> AV:
         v = self.eval(node.value, fr) if node.value else NONE
@@ -459,12 +477,17 @@ class Interp:
             return self.eval(fn.node.body, lfr)
         if isinstance(fn, Inst):
             m = fn.cls.find_method("__call__")
-            if m is not None and "abstractmethod" not in m.decorators:
+            if m is not None:
                 return self.call_function(m, [fn] + args, kwargs, node, self_av=fn)
             return self.host.opaque_call(fn, "__call__", args, kwargs, node)
         return self.host.call(fn, args, kwargs, node)
 
-    def bind_args(self, a: ast.arguments, args: List[AV], kwargs: Dict[str, AV], fr: Frame, node: Any, qual: str) -> None:
+    def bind_args(self, a: ast.arguments, args: List[AV], kwargs: Dict[str, AV], fr: Frame, node: Any, qual: str, cls: Any = None) -> None:
+        def dframe() -> Frame:
+            d = Frame(None, fr.mod)
+            d.cls_scope = cls
+            return d
+
         params = [p.arg for p in a.posonlyargs + a.args]
         defaults = a.defaults
         n_no_default = len(params) - len(defaults)
@@ -479,7 +502,7 @@ class Interp:
             elif p in kwargs:
                 fr.locals[p] = kwargs.pop(p)
             elif i >= n_no_default:
-                fr.locals[p] = self.eval(defaults[i - n_no_default], Frame(None, fr.mod))
+                fr.locals[p] = self.eval(defaults[i - n_no_default], dframe())
             else:
                 raise AbsRaise(HostExc("TypeError", f"{qual}() missing argument {p}"), self.site(node) if node else None)
         if a.vararg is not None:
@@ -488,7 +511,7 @@ class Interp:
             if p.arg in kwargs:
                 fr.locals[p.arg] = kwargs.pop(p.arg)
             elif d is not None:
-                fr.locals[p.arg] = self.eval(d, Frame(None, fr.mod))
+                fr.locals[p.arg] = self.eval(d, dframe())
             else:
                 raise AbsRaise(HostExc("TypeError", f"{qual}() missing keyword argument {p.arg}"), self.site(node) if node else None)
         if a.kwarg is not None:
@@ -526,7 +549,7 @@ class Interp:
         self.touched.add(fi.qualname)
         fr = Frame(fi, fi.module, parent=closure)
         fr.self_av = self_av if self_av is not None else (args[0] if fi.cls is not None and args else None)
-        self.bind_args(fi.node.args, args, kwargs, fr, node, fi.qualname)
+        self.bind_args(fi.node.args, args, kwargs, fr, node, fi.qualname, cls=fi.cls)
         if fi.is_generator:
             fr.is_gen = True
             g = GenV(fi, fr, self_av=fr.self_av, id=self.ctx.new_id())
